@@ -686,6 +686,20 @@ example :
     (List.range 7).map (fun t => (uartStAt 2 2 false 8 false uins t).rx) =
       [⟨0, false⟩, ⟨0, false⟩, ⟨1, false⟩, ⟨0, true⟩, ⟨0, true⟩, ⟨0, true⟩, ⟨0, false⟩] := by decide
 
+/-- What "as coded" means for the UART rx event (documented limit, not a defect of the event manager): the trigger
+    is the LEVEL `rx_fifo.source.valid` into a rising-edge source, so with two characters queued the acknowledge of
+    the first (cycle 5, pops one character in cycle 6) leaves the FIFO non-empty, the trigger never falls, and no
+    second event is raised: software has to drain until `rxempty` before it returns (the LiteX ISR does). -/
+example :
+    let ui (sv : Bool) (adr : Nat) (we : Bool) (dat : Nat) : UartIn :=
+      { sinkValid := sv, srcReady := false, rxtxRe := false, rxtxWe := false, adr := adr, we := we, datW := dat }
+    let uins := [ui true 9 false 0, ui true 9 false 0, ui false 9 false 0, ui false 9 false 0, ui false 9 false 0,
+                 ui false 1 true 2, ui false 9 false 0, ui false 9 false 0, ui false 9 false 0]
+    (List.range 9).map (fun t => (uartStAt 2 2 false 8 false uins t).rx.rd) =
+      [false, false, true, true, true, true, true, true, true] ∧
+    (List.range 9).map (fun t => pendingAt (uartCfg 8 false) (uartTrace 2 2 false 8 false uins) t 1) =
+      [false, false, false, true, true, true, true, false, false] := by decide
+
 /-- Non-vacuity of `gpio_raw_change_pending_partial` (one pad, Change mode): the raw pad rises in cycle 1, the IRQ
     logic sees it in cycle 3, pending from cycle 4. -/
 example :
